@@ -16,11 +16,12 @@ for m in sorted(glob.glob(VERIF + "/seeded/*/meta.json")):
     if only and prop not in only:
         continue
     det = d.get("detected_by") or {}
-    rule = det.get("rule") if isinstance(det, dict) else None
-    if not rule:
+    rules = (det.get("rules") or ([det["rule"]] if det.get("rule") else [])) if isinstance(det, dict) else []
+    rules = [x.split(".")[-1] if False else x for x in rules]
+    if not rules:
         continue
     os.makedirs("%s/selftest/%s" % (VERIF, prop), exist_ok=True)
-    json.dump({"patch": "%s/seeded/%s/patch.diff" % (VERIF, sid), "reverse": False, "expect": [rule],
+    json.dump({"patch": "%s/seeded/%s/patch.diff" % (VERIF, sid), "reverse": False, "expect": rules,
                "what": "seeded change %s: %s" % (sid, (d.get("summary") or "")[:240])},
               open("%s/selftest/%s/seeded-%s.json" % (VERIF, prop, sid), "w"), indent=1)
 # (b)
